@@ -27,7 +27,15 @@ def parse(stmt, line):
         return ("err", line[4:])
     if line == "bad-op":
         return ("err", "model-bad-op")
-    if cmd in ("frame", "rawframe"):
+    if cmd == "arraybin":
+        return ("frames", [parse("frame x", part) for part in line.split(" ;; ")])
+    if cmd == "arraysample":
+        return ("vals", [pval(t) for t in line.split()])
+    if cmd == "covm":
+        if stmt.split()[1] == "cov":
+            return ("vals", ["err" if t == "err" else pval(t) for t in line.split()])
+        return ("corrpartslist", [None if t == "err" else [pval(x) for x in t.split(",")] for t in line.split()])
+    if cmd in ("frame", "rawframe", "views"):
         head, _, rows = line.partition("|")
         cl, init = head.split()
         rr = []
